@@ -91,7 +91,7 @@ pub fn sample_links(step: &str) -> Vec<(&'static str, LinkMetadata)> {
         let mut l = link(step, arts(&[("src/a.c", 1), ("Src\\b.c", 3)]), arts(&[("out/p", 2), ("caf\u{e9}/menu", 4)]));
         l.env = Some([("workdir".to_string(), "/w/Build".to_string()), ("empty".to_string(), String::new())].into_iter().collect());
         l.byproducts = ByProducts::new().set_return_value(0).set_stdout("Done\n".to_string()).set_stderr(String::new());
-        l.command = vec!["make".to_string(), "out/p".to_string()].into();
+        l.command = vec!["sh".to_string(), "-c".to_string(), "make out/p".to_string()].into();
         l
     };
     let failed = {
